@@ -21,6 +21,7 @@ from pyvc.values import SV, CV, XV, PV, B, I, R, EngineError, to_z, real, arith,
 from pyvc.containers import PDict
 from pyvc.arrays import Table, Mat, Space, Arr, SegBound, subst, truth_z
 from pyvc.vc import consts
+from pyvc.interp import Native
 from pyvc import netmodel
 from contracts import ppcmodel as pm
 
@@ -94,6 +95,7 @@ def run(vc):
     run_results(vc)
     run_gen(vc, ("opf", "pf"))
     run_gen_vm(vc)
+    run_dc_flow_limits(vc)
 
 
 def run_results(vc, tagprefix=""):
@@ -198,11 +200,100 @@ def run_gen_vm(vc):
     vc.explore("_build_pp_gen[opf, voltage limits]", h, max_paths=400)
 
 
+def run_dc_flow_limits(vc):
+    """opf_setup, DC model: the two linear constraints on a rated branch are  -RATE_A <= flow <= RATE_A  for the DC flow
+    flow = Bf Va + Pfinj  (Pfinj: the offset caused by a phase shift), i.e.  Bf Va <= RATE_A/S_base - Pfinj  and  -Bf Va <= RATE_A/S_base + Pfinj."""
+    OS = "pandapower.pypower.opf_setup"
+    ib = consts("pandapower.pypower.idx_brch"); ic = consts("pandapower.pypower.idx_cost")
+
+    class Tok:
+        no_identity_merge = True
+
+        def __init__(self, name, rows=None, sign=1):
+            self.name, self.rows, self.sign = name, rows, sign
+
+        def sym_getitem(self, it, key):
+            if isinstance(key, tuple) and len(key) == 2 and isinstance(key[1], slice):
+                return Tok(self.name, key[0], self.sign)
+            raise EngineError("index into a sparse matrix token")
+
+        def sym_unop(self, it, op):
+            if op == "neg":
+                return Tok(self.name, self.rows, -self.sign)
+            raise EngineError("unary op on a sparse matrix token")
+
+    def h(p):
+        bsp = Space.get("ppcbranch")
+        branch = Mat("branch", {"all": bsp})
+        rate = pm.colfun(branch, "all", ib.RATE_A)
+        bus = pm.bus_mat()
+        gen = Mat("gen", {"all": Space.get("ppcgen")})
+        gencost = Mat("gencost", {"all": Space.get("ppcgencost")})
+        gencost.cols[("all", ic.MODEL)] = float(ic.POLYNOMIAL)
+        gencost.cols[("all", ic.NCOST)] = 2.0
+        base = SV(z3.Real("baseMVA"))
+        p.assume(base.z > 0)
+        pfinj = Arr(bsp, SV(z3.Function("Pfinj", I, R)(bsp.i)))
+        Bf = Tok("Bf")
+        cons = {}
+        me = p.it.modenv(OS)
+        op = lambda why: Native(lambda it, *a, **k: Opaque(why), name=why)
+        for nm in ("sparse", "hstack", "makeAy", "makeAvl", "makeApq"):
+            me.vals[nm] = op(nm)
+        me.vals["pqcost"] = Native(lambda it, gc, ng, *a: (gc, Opaque("qcost")), name="pqcost")
+        me.vals["opf_args"] = Native(lambda it, ppc, ppopt: (base, bus, gen, branch, gencost, None, Opaque("lbu"), Opaque("ubu"), ppopt, None,
+                                                             Opaque("fparm"), Opaque("H"), Opaque("Cw"), Opaque("z0"), Opaque("zl"), Opaque("zu"),
+                                                             [], None), name="opf_args")
+        me.vals["makeBdc"] = Native(lambda it, b, br: (Opaque("B"), Bf, Opaque("Pbusinj"), pfinj, None), name="makeBdc")
+        me.vals["makeAang"] = Native(lambda it, *a: (Opaque("Aang"), Opaque("lang"), Opaque("uang"), Opaque("iang")), name="makeAang")
+
+        class Model:
+            def __init__(self):
+                self.cons = cons
+
+        def opf_model(it, ppc):
+            from pyvc.interp import ObjVal
+            return ObjVal(None, {"userdata": Native(lambda it, *a: None, name="userdata", pure=False),
+                                 "add_vars": Native(lambda it, *a: None, name="add_vars", pure=False),
+                                 "add_costs": Native(lambda it, *a: None, name="add_costs", pure=False),
+                                 "add_constraints": Native(lambda it, name, *a: cons.__setitem__(name, a), name="add_constraints", pure=False)})
+        me.vals["opf_model"] = Native(opf_model, name="opf_model")
+        p.it.lenient_numpy = True
+        ppc = PDict({"bus": bus, "branch": branch, "gen": gen, "gencost": gencost})
+        out = p.call(f"{OS}:opf_setup", ppc, PDict({"PF_DC": 1, "OPF_ALG": 0, "VERBOSE": 0, "OPF_FLOW_LIM": 0}))
+        if out.raised:
+            raise EngineError(f"opf_setup raised {out.exc!r}")
+        meta = dict(part="dc-flow-limits")
+        ok = "Pf" in cons and "Pt" in cons
+        p.prove("dc-opf: both branch flow constraints are added", ok, meta=meta)
+        if not ok:
+            return
+        (Af, lf, uf, _), (At, lt, ut, _) = cons["Pf"], cons["Pt"]
+        shape = isinstance(Af, Tok) and isinstance(At, Tok) and Af.sign == 1 and At.sign == -1 and Af.rows is At.rows and \
+            isinstance(uf, Arr) and isinstance(ut, Arr) and uf.space is bsp and ut.space is bsp
+        p.prove("dc-opf: 'Pf' constrains Bf Va and 'Pt' constrains -Bf Va on the same rated branches", shape, meta=meta)
+        if not shape:
+            return
+        r = to_z(rate, R) / base.z
+        rated = z3.And(to_z(rate, R) != 0, to_z(rate, R) < 1e10)
+        um = lambda a: z3.BoolVal(True) if a.mask is True else a.mask
+        p.prove("dc-opf: exactly the branches with a rating are constrained", z3.And(um(uf) == rated, um(ut) == rated), meta=meta)
+        # flow = Bf Va + Pfinj;  flow <= r  <=>  Bf Va <= r - Pfinj;   -flow <= r  <=>  -Bf Va <= r + Pfinj
+        p.prove("dc-opf: upper bound of Bf Va is RATE_A / S_base - Pfinj  (flow <= rating)", z3.Implies(rated, to_z(uf.e, R) == r - to_z(pfinj.e, R)), meta=meta)
+        p.prove("dc-opf: upper bound of -Bf Va is RATE_A / S_base + Pfinj  (-flow <= rating)", z3.Implies(rated, to_z(ut.e, R) == r + to_z(pfinj.e, R)), meta=meta,
+                note="with the phase-shift offset Pfinj of the branch: the limit holds for the flow, not for Bf Va")
+    vc.explore("opf_setup[dc]", h, max_paths=40)
+
+
 def classify(ob, model):
     return ob.meta.get("part", "setpoints") + ":" + ob.meta.get("element", "")
 
 
 def replay(ob, model, finding=None):
+    if ob.meta.get("part") == "dc-flow-limits":
+        return {"script": f"# replay of {ob.id}\nfrom replaylib.opf_feasible import main_dc_shift\nmain_dc_shift()\n",
+                "description": "DC OPF with a phase-shifting transformer at its loading limit (shift 0 / 30 / 150 / -30 degrees, flow in both "
+                               "directions): loading of the converged result"}
     if ob.meta.get("part") == "gen-vm" or "voltage limits" in ob.id:
         return {"script": f"# replay of {ob.id}\nfrom replaylib.opf_feasible import main_gen_vm\nmain_gen_vm()\n",
                 "description": "AC OPF with two gens that declare their own voltage limits (one above its bus maximum, the other below its bus "
